@@ -141,6 +141,7 @@ func TestVerifC15(t *testing.T) {
 		if x := vGenExtraRoot(); x != "" {
 			// a segment boundary that the sample durations and the next tfdt disagree about, before the last segment
 			layouts = append(layouts, layout{filepath.Join(x, "x_shift_last_boundary"), "x_shift_last_boundary"})
+			layouts = append(layouts, layout{filepath.Join(x, "x_rep_ids"), "x_rep_ids"})
 		}
 	}
 	job := 0
